@@ -126,3 +126,20 @@ Example C06_eot_example :
   (match run_on [Ch 1 1 1; Ch 1 1 6; Ch 1 1 33] with RErr _ => True | _ => False end).
 Proof. vm_compute. split; [reflexivity|exact I]. Qed.
 Print Assumptions C06_eot_example.
+
+(** the recorded finding C06-filter-change-at-parse-start on the model ("ab", no filter): filter_with(drop A, empty) consumes
+    nothing and succeeds, yet behind it one(A) fails - the filter change at the parse start skipped the [a] eagerly and the
+    restored filter cannot bring it back. Ordered-choice semantics (and the same grammar without the wrapper) accepts. *)
+Theorem C06_filter_change_at_parse_start_refuted :
+  let t := [Ch 1 1 1; Ch 1 1 2] in
+  match c_with_filter (c_new Plain t) None with
+  | Ok lx =>
+    match run 10 (GBoth (GFilterWith (FDrop [KA]) GEmpty) (GOne KA)) lx (ctx_new false) (mkstore [] []),
+          run 10 (GBoth GEmpty (GOne KA)) lx (ctx_new false) (mkstore [] []) with
+    | (RErr (EUnexpected _ _ _ (Some found)), _), (ROk _ lx', _) => found = mktok KB 0 /\ byte (c_cursor_pos lx') = 1
+    | _, _ => False
+    end
+  | _ => False
+  end.
+Proof. vm_compute. split; reflexivity. Qed.
+Print Assumptions C06_filter_change_at_parse_start_refuted.
